@@ -575,6 +575,43 @@ def gen_multi_program(rng):
     return p
 
 
+def gen_newreq_program(rng):
+    """Directed family for C16/C04: in a bottom-up build an executing task NEWLY requires an existing task B that is not yet
+    consistent while several of B's (transitive) dependencies are still scheduled -- the only place where the build picks
+    'the least scheduled task with a dependency from B', so the only place where an unordered pick would show."""
+    p = Prog(); p.kind = 'wf'; p.exact_only = True
+    k = rng.randint(2, 4)
+    p.sources = list(range(k + 1))
+    # task 0 = A: read r0; if r0 == 1 require B.   task 1 = B: requires C_1..C_k (directly or through a middle task).
+    p.tasks[0] = ('R', 0, 0, ('I', ('l', 2), ('Q', 1, rng.choice([0, 2]), ('T', ('a',))), ('T', ('k', 5))))
+    tid = 2
+    body = ('T', ('a',))
+    cs = []
+    for i in range(k):
+        c = tid; tid += 1
+        p.tasks[c] = ('R', 1 + i, 0, ('T', ('a',)))
+        cs.append(c)
+        head = c
+        if rng.random() < 0.4:
+            m = tid; tid += 1
+            p.tasks[m] = ('Q', c, rng.choice([0, 2]), ('T', ('a',)))
+            head = m
+        body = ('Q', head, rng.choice([0, 2]), body)
+    p.tasks[1] = body
+    steps = [['E', str(i), '0'] for i in range(k + 1)]
+    first = [['S', '1', 'q', '0'], ['S', '1', 'q', '1']]
+    if rng.random() < 0.5: first.reverse()
+    steps += first
+    changed = [0] + [1 + i for i in range(k) if rng.random() < 0.85]
+    for r in changed:
+        steps.append(['E', str(r), '1'])
+    rng.shuffle(changed)
+    bu = len(steps)
+    steps.append(['S', '1', 'b', str(len(changed))] + [str(r) for r in changed])
+    steps.append(['S', '1', 'q', '0'])
+    return p, steps, {'bu': {bu}}
+
+
 def gen_sibling_program(rng):
     """Directed family for C05: a top task requires several sibling chains (generators are reached TRANSITIVELY, at
     depth >= 2, so the hidden-dependency queries really walk the graph and leave work on their stack), reads the generated
